@@ -13,6 +13,9 @@
 (*         instance conforms to the shape TLC enumerated, neither call     *)
 (*         panics, Parse accepts the description, and the parsed lookup    *)
 (*         list is structurally equal to the described one.                *)
+(*  num    a number at a place of the grammar: exact in the result or an   *)
+(*         error (NumLaw);  errline  an erroneous text: the error carries  *)
+(*         the line of the token at which it is detected (ErrLaw).         *)
 (*  mean   a hand-specified description of DslLang.tla: the parsed      *)
 (*         lookup list equals the meaning TLC computes from the syntax     *)
 (*         tree, and the text is the rendering of that tree.               *)
@@ -65,9 +68,18 @@ MeanOK ==
   /\ E.ppanic = "" /\ E.returned /\ E.leaks = 0 /\ E.perr = ""
   /\ E.got = Meaning(Descs[E.mid])
 
+NumOK  == /\ E.ppanic = "" /\ E.returned /\ E.leaks = 0
+          /\ E.nk \in NumKinds /\ E.nl \in 1..Len(Lits) /\ E.text = NumText(E.nk, E.nl) /\ E.font = MeaningFont
+          /\ NumLaw(E.nk, E.nl, E.perr, E.got)
+ErrLineOK == /\ E.ppanic = "" /\ E.returned /\ E.leaks = 0
+             /\ E.text = ErrText(E.et, E.ep, E.ex) /\ E.font = MeaningFont
+             /\ ErrLaw(E.et, E.ep, E.ex, E.perr # "", E.line, E.item)
+
 EventOK == CASE E.ev = "parse" -> IF E.pre = "ok" THEN ParseOK ELSE EarlyOK
              [] E.ev = "rt"    -> RoundTripOK
              [] E.ev = "mean"  -> MeanOK
+             [] E.ev = "num"   -> NumOK
+             [] E.ev = "errline" -> ErrLineOK
              [] OTHER          -> FALSE
 
 (* Every line is consumed; a line that the property does not allow is printed and counted, *)
